@@ -510,7 +510,7 @@ def gen_stranger_cases(rng, tier):
             ops.append(ins(t, rng.randrange(4), x))
             ops.append(["rmAbsent", kind, t, rng.randrange(4)])
         else:
-            src = rng.choice([c for c in set(conts) if c != t])
+            src = rng.choice([c for c in sorted(set(conts)) if c != t])
             ops.append(ins(src, kind, x))
             ops.append(ins(t, rng.randrange(4), x))
             ops.append(["rmForeign", kind, t, src, rng.randrange(4)])
